@@ -63,8 +63,8 @@ HTML7 = [['<x-note>', 'text *here*'], ['<my-tag attr="v">'], ['</x-note>'], ['<a
 
 PROFILES = {
     # switches: see generate()
-    'full': dict(rich_links=True, exotic_words=True),
-    'roundtrip': dict(entities=False, indent4_cont=False, empty_items=False, rich_links='plain'),
+    'full': dict(rich_links=True, exotic_words=True, ws_blank_lines=True),
+    'roundtrip': dict(entities=False, indent4_cont=False, empty_items=False, rich_links='plain', ws_blank_lines=True),
     'normalform': dict(entities=False, indent4_cont=False, canonical=True, empty_items=False, blank_start_items=False),
     'prose': dict(entities=False, indent4_cont=False, prose=True, empty_items=False),
     'outline': dict(outline=True),
@@ -86,6 +86,7 @@ class Opt:
         self.table_escaped_pipe = True         # (was off for the round-trip profiles: C09-escaped-pipe-in-table-cell, repaired in f65540f)
         self.table_first_in_item = False   # known finding C03-table-starts-later-list-item
         self.para_after_closed_container = False   # known finding C03-lazy-after-nonparagraph: off by default
+        self.ws_blank_lines = False   # blank lines made of spaces / tabs (profiles "full", "roundtrip")
         self.exotic_words = False     # words containing FF / NEL / LS ... (profile "full")
         self.rich_links = False       # destinations / titles with escapes, references and Markdown-significant characters (profile "full")
         self.lazy = True
@@ -1281,6 +1282,12 @@ def emit(rng, opt, g, blocks, profile='full', leading_blank=None):
     if leading_blank is None:
         leading_blank = rng.choice((0, 0, 0, 0, 1, 2)) if not opt.canonical else 0
     lines = [Line('', kind='blank') for _ in range(leading_blank)] + lines
+    if opt.ws_blank_lines and not opt.canonical:
+        # 2.1: a line that contains only spaces or tabs is a blank line too, however long it is
+        for ln in lines:
+            if ln.kind == 'blank' and rng.random() < 0.15:
+                ln.text += rng.choice((' ', '  ', '   ', '    ', '     ', '        ', '\t', ' \t', '  \t '))
+                em.stat('blank-line-with-white-space')
     import re
     hr = re.compile(r'^(?:[> ]|[-+*] +|\d{1,9}[.)] +)*([-_*])(?: *\1){2,} *$')
     for ln in lines:
